@@ -1,0 +1,16 @@
+//go:build verif
+
+package serverinterceptors
+
+// Contracts for the deductive verifier in /verif (govc). Comment-only file: adds no code.
+
+//@ func UnaryAuthorizeInterceptor$1
+//@   prop C04
+//@   opaque Authenticate
+//@   ensures [rejected-never-handled] ret(Authenticate) != nil ==> calls(handler) == 0 && result1 == ret(Authenticate) && result0 == nil
+//@   ensures [admitted-handled] ret(Authenticate) == nil ==> calls(handler, ctx, req) == 1 && result0 == ret(handler, 0) && result1 == ret(handler, 1)
+//@ func StreamAuthorizeInterceptor$1
+//@   prop C04
+//@   opaque Authenticate
+//@   ensures [rejected-never-handled] ret(Authenticate) != nil ==> calls(handler) == 0 && result == ret(Authenticate)
+//@   ensures [admitted-handled] ret(Authenticate) == nil ==> calls(handler, srv, stream) == 1 && result == ret(handler)
